@@ -30,15 +30,15 @@ CHECKS = {
    ref="§3 C07", tech=TECH + "durability/exactly-once oracle over the files read back + step invariant on rotated files + bounded-liveness of Send; external filesystem faults",
    note="Real file I/O on a temp dir (synchronous, deterministic); power loss and torn writes are not simulated."),
  "C10": dict(
-   text="Seeded exploration of request histories against the four rate-limited UDP services through the real socket listener on the simulated kernel: bursts of 1-200 grammar-derived datagrams from 1-3 source IPs over several source ports with fake-clock gaps from 0 to 25 minutes (so buckets refill partially and fully). Invariant over the recorded history: in every window shorter than the limiter interval a source IP receives at most 4 response datagrams; metamorphic: a source's responses (count and times) are the same with and without the other sources' traffic. Flood class: a burst from a source never seen before is released within a step or two while the handlers give way to each other at synchronisation points (yield points, seeded).",
+   text="Seeded exploration of request histories against the four rate-limited UDP services through the real socket listener on the simulated kernel: bursts of 1-200 grammar-derived datagrams from 1-3 source IPs (IPv4 or IPv6) over several source ports with fake-clock gaps from 0 to 25 minutes (so buckets refill partially and fully). Invariant over the recorded history: in every window shorter than the limiter interval a source IP receives at most 4 response datagrams; metamorphic: a source's responses (count and times) are the same with and without the other sources' traffic. Flood class: a burst from a source never seen before is released within a step or two while the handlers give way to each other at synchronisation points (yield points, seeded).",
    ref="§3 C10", tech=TECH + "sliding-window invariant over the recorded response history on the fake clock + metamorphic source removal",
    note="x/time/rate reads the bubble's fake clock; responses are what the simulated kernel carried back (WriteToUDP)."),
  "C09": dict(
-   text="Seeded exploration: hostile inputs to every director-less service (1-3 interleaved connections, grammar dialogues, mutations, raw bytes) ended by client close / reset / half-close / silence / a stalled peer, and histories of N<=200 sequential connections (incl. FTP passive sockets never connected to); afterwards the fake clock runs 10 simulated minutes. Checked: the server closed its side of every connection; the census of this run's goroutines with honeytrap frames (by creation site), the simulated kernel's listening sockets and the process's file descriptors equal the post-boot baseline; a handler that keeps spinning is caught by the driver's CPU watchdog.",
+   text="Seeded exploration: hostile inputs to every director-less service (1-3 interleaved connections, grammar dialogues, mutations, raw bytes, real ssh sessions with hostile channel requests) ended by client close / reset / half-close / silence / a stalled peer, and histories of N<=200 sequential connections (incl. FTP passive sockets never connected to); afterwards the fake clock runs 10 simulated minutes. Checked: the server closed its side of every connection; the census of this run's goroutines with honeytrap frames (by creation site), the simulated kernel's listening sockets and the process's file descriptors equal the post-boot baseline; a handler that keeps spinning is caught by the driver's CPU watchdog.",
    ref="§3 C09", tech=TECH + "resource-census oracle (goroutines by creation site, simulated listening sockets, fds) after a fake-clock drain; bounded-liveness of handlers once the peer is gone",
    note="Goroutines are attributed to a run by synctest bubble id; retained heap is not asserted; CPU watchdog thresholds are in CPU seconds, far above legitimate steps."),
  "C01": dict(
-   text="Seeded exploration: 1-3 services of the registry (all 24 director-less services in rotation) with 1-4 interleaved connections per service instance carrying grammar dialogues, truncations, mutations (length fields, reordering, repetition, out-of-state commands) or raw bytes under seeded segmentation, ended by close / reset / half-close / silence past the idle deadline / stalled peer. Oracles: the worker process survives (exit status and panic:/fatal error: banners are observed by the driver, which re-runs the seed alone in a fresh process and minimises it), no step exceeds the CPU/RSS budgets (runaway handlers), and a fresh connection to an echo port is still served afterwards. Race tier: a second worker binary built with -race runs one service instance with 2-4 connections (mostly well-formed 'twin' dialogues whose first requests are released in one step); a data race whose two accesses are both runtime map operations (one a write) between handlers of the same scenario - the precondition of the runtime's fatal 'concurrent map writes' - is a violation when it replays alone. Batch scenarios may use yield points (handlers give way at synchronisation points by seeded decision).",
+   text="Seeded exploration: 1-3 services of the registry (all 24 director-less services in rotation) with 1-4 interleaved connections per service instance carrying grammar dialogues, truncations, mutations (length fields, reordering, repetition, out-of-state commands) or raw bytes under seeded segmentation - for the ssh services mostly real ssh sessions (x/crypto/ssh client inside the bubble: channels, channel requests with well-formed / truncated / lying / random payloads, data, many requests after a session start) - ended by close / reset / half-close / silence past the idle deadline / stalled peer. Oracles: the worker process survives (exit status and panic:/fatal error: banners are observed by the driver, which re-runs the seed alone in a fresh process and minimises it), no step exceeds the CPU/RSS budgets (runaway handlers), and a fresh connection to an echo port is still served afterwards. Race tier: a second worker binary built with -race runs one service instance with 2-4 connections (mostly well-formed 'twin' dialogues whose first requests are released in one step); a data race whose two accesses are both runtime map operations (one a write) between handlers of the same scenario - the precondition of the runtime's fatal 'concurrent map writes' - is a violation when it replays alone. Batch scenarios may use yield points (handlers give way at synchronisation points by seeded decision).",
    ref="§3 C01, R5", tech=TECH + "process-level crash/hang/memory oracle by a watching driver + in-simulation liveness probe + race detector as in-simulation monitor for same-step handlers; client reset/half-close/idle/stall faults",
    note="Budgets are in CPU seconds / RSS, orders of magnitude above legitimate steps; interleavings finer than a delivered segment only via same-step batch release and the build-time yield points (62 sites at synchronisation primitives); the race tier sees a conflict only when no synchronisation happens to order the two handlers."),
  "C03": dict(
@@ -50,7 +50,7 @@ CHECKS = {
    ref="§3 C02", tech=RAW + "process-level crash oracle by the watching driver + in-simulation liveness probe; EINTR fault; table configurations",
    note="Kernel AF_PACKET delivery semantics (truncation, VLAN auxdata) are not simulated; do_arp is not settable so ARP frames are ignored by every reachable configuration."),
  "C14": dict(
-   text="Seeded exploration: 1-4 scripted TCP peers (ISN boundary values and random, decoded/undecoded ports, 0-4000 bytes in 1-8 in-order segments of even and odd lengths, PSH placement, peers with ARP entry or behind the gateway, peers sharing an address) interleaved frame by frame by the choice tape into the simulated NIC; peers acknowledge what they receive; established connections may idle 30-55 s while others connect, and 'crossed' peers let the listener close first and send a FIN that still carries the older acknowledgement number. An independent decoder verifies every emitted frame (addressed back to the sender, IPv4 and TCP checksums, SYN-ACK acks ISN+1, every ACK equals ISN+1+bytes so far mod 2^32, FIN answered); the connection's event must carry the peer's addresses and a payload that is a prefix of the stream containing the first pushed segment; one peer is re-run alone and must see the same frames (relative sequence numbers).",
+   text="Seeded exploration: 1-4 scripted TCP peers (ISN boundary values and random, decoded/undecoded ports, 0-4000 bytes in 1-8 in-order segments of even and odd lengths, PSH placement, peers with ARP entry or behind the gateway, peers sharing an address) interleaved frame by frame by the choice tape into the simulated NIC; peers acknowledge what they receive; established connections may idle 30-55 s while others connect, and 'crossed' peers let the listener close first and send a FIN that still carries the older acknowledgement number; the handshake ACK may carry the first data segment. An independent decoder verifies every emitted frame (addressed back to the sender, IPv4 and TCP checksums, SYN-ACK acks ISN+1, every ACK equals ISN+1+bytes so far mod 2^32, FIN answered); the connection's event must carry the peer's addresses and a payload that is a prefix of the stream containing the first pushed segment; one peer is re-run alone and must see the same frames (relative sequence numbers).",
    ref="§3 C14", tech=RAW + "independent frame decoder/checksum verifier as history invariant + metamorphic solo-peer equivalence",
    note="Server ISN comes from the seeded global math/rand and is not steerable; retransmission, out-of-order and overlapping segments are outside the statement; the listener hands data to its handler on PSH/FIN and the handler waits 60 s per read, so content is not judged when the silence before a pushed segment reached 59 s."),
  "C20": dict(
@@ -58,7 +58,7 @@ CHECKS = {
    ref="§3 C20", tech=RAW + "set/exactly-once oracle over the recorded port-scan event history on the fake clock",
    note="Bursts are derived from the probes' actual simulated times (gap < 4.5 s same burst, > 11 s new burst, between: counts not judged); mixed-protocol bursts may yield one event or one per protocol family."),
  "C12": dict(
-   text="Seeded exploration of generated credential sets and attempt sequences (up to 4 per connection, gated-operation probe before and after each) against ssh-simulator (real x/crypto/ssh client inside the bubble, retrying passwords on one connection), ldap (simple binds with several DN spellings; add/modify/delete/modify-dn/compare probes) and ftp (USER/PASS; file and directory commands), with a second (sometimes third) connection to the same service instance interleaved by the choice tape or run strictly after the first has left without unbind/QUIT. Reference model: success iff the pair (or the wildcard) is in the set, independent of history and of the other connection; exactly one authentication event per attempt carrying the presented password and the user as evaluated; gated operations refused until a success on this very connection.",
+   text="Seeded exploration of generated credential sets and attempt sequences (up to 4 per connection, gated-operation probe before and after each) against ssh-simulator (real x/crypto/ssh client inside the bubble, retrying up to 10 passwords on one connection, sometimes after offering a public key), ldap (simple binds with several DN spellings, some with an unsupported protocol version; add/modify/delete/modify-dn/compare probes) and ftp (USER/PASS; file and directory commands), with a second (sometimes third) connection to the same service instance interleaved by the choice tape or run strictly after the first has left without unbind/QUIT. Reference model: success iff the pair (or the wildcard) is in the set, independent of history and of the other connection; exactly one authentication event per attempt carrying the presented password and the user as evaluated; gated operations refused until a success on this very connection.",
    ref="§3 C12", tech=TECH + "reference-model oracle over protocol replies and authentication events; interleaved second connection",
    note="Schedule dimension is thin (the second connection); LDAP anonymous bind result code is not judged; FTP has a fixed credential table."),
  "C13": dict(
